@@ -65,6 +65,9 @@ def main(tier):
         for base in ["[[1,2],[3]][0]", "[[1..3]][0]", "x = [[4,5],[6]][0]", "[1,2,3][1]", "[[1,2],[3]][0][1]", "[2..5][1]", "[[[1]]][0][0]", "1 + [[1,2],[3]][0][0]"]:
             for t in ["[1 x", "\n[7, 8", " [0:1 and so on", "[1:", "\n[9 ", "[", "[0", "[0 1]", " [1,", "[0][", "[0][1 x", "[0:1][2 x"]:
                 cases.append(("", (base + t).encode("utf-8"), "-"))
+        # a counted CoC die / an index chain whose next element breaks off: looked at before compiled (formerly known leak sites)
+        for src in ["p(1) bp", "b(0) 1 = 2", "1+b(3)x", "b(2)y + 1", "p(1+1)z", "x[1] [1,", "a=[[1]]; a[0][1 x", "x = [1,2]; x[0] [", "y = {'k': [1]}; y['k'][0][", "b(3)+1 [2", "B(1)b"]:
+            cases.append(("x = [1,2]", src.encode("utf-8"), "wcfd"))
         # statement-level tails that START a construct which writes into its own code buffer (computed value, function) and then break off
         STMT_TAILS = ["; &note = ???", ";&c=", "\n&c = )", "; &c = 1 +", "; &c.x = ", "; func f(", "; func f() {", "; func f() { 1 +", "; &c = `a{", "; if 1 {", "; while 1 { &d = "]
         for s in ["hp = 10; hp = hp - 3", "a = 3d6", "x = 1; y = x + 1", "2d6 + 1", "i=0; while i<3 { i=i+1 }; i", "&q = 2; q + 1", "func g(){ 5 }; g()"]:
